@@ -482,6 +482,38 @@ pub fn run(tier: Tier) -> i32 {
             }
         }
         rep.cov("beyond_writer_buffer_runs", json!(2));
+        // ... and one flush of more than 2^31 bytes (the most a single write call takes): 216 000 selected packets with
+        // 10 000-byte payloads (2.17 GB, fewer than 2^20 packets) from stdin to a file; the file is compared on the fly
+        {
+            let mut r = proto.rdh.clone();
+            r.link_id = 0;
+            r.memory_size = 10_064;
+            r.offset_next = 10_064;
+            let mut unit = r.encode().to_vec();
+            unit.extend((0..10_000u32).map(|i| (i % 251) as u8));
+            let times = 216_000usize;
+            let scratch = Scratch::new("c08huge");
+            let a: Vec<String> = vec!["--filter-link".into(), "0".into(), "-o".into(), "out.raw".into()];
+            let res = Run::new(&a).cwd(&scratch.path).timeout_s(600).stdin_repeat(unit.clone(), times, vec![]).run();
+            let outp = scratch.join("out.raw");
+            let size = std::fs::metadata(&outp).map(|m| m.len()).unwrap_or(0);
+            let mut ok = res.status == Some(0) && !res.crashed() && size == (unit.len() * times) as u64;
+            if ok {
+                use std::io::Read;
+                let mut f = std::io::BufReader::with_capacity(1 << 20, std::fs::File::open(&outp).unwrap());
+                let mut buf = vec![0u8; unit.len()];
+                for _ in 0..times {
+                    if f.read_exact(&mut buf).is_err() || buf != unit {
+                        ok = false;
+                        break;
+                    }
+                }
+            }
+            if !ok {
+                rep.violation(Violation { signature: "write:bytes:one-flush-beyond-2-gib".into(), description: format!("216 000 selected packets of 10 064 bytes: exit {:?} signal {:?}, output {} bytes, expected {} bytes", res.status, res.signal, size, unit.len() * times), replay: json!({"kind": "huge"}) });
+            }
+            rep.cov("flush_beyond_2_gib_runs", json!(1));
+        }
     }
     // partition: for every pattern stream, the link-filter outputs over all link values add up to the input
     let mut partitions = 0u64;
